@@ -21,12 +21,19 @@ for meta in sorted(glob.glob(V + "/seeded/C*/meta.json")):
                 break
     caught = sorted(set(d.get("caught_by", [])) | set(matrix.get(cid, {}).get("caught_by", [])))
     n = notes.get(cid, {})
+    # what the change does / needs, in our own words (the README is the sub-agent's)
+    if n:
+        d["what"], d["needs"] = n.get("what", ""), n.get("needs", d.get("needs", ""))
+        if n.get("strengthened"):
+            d["strengthened"] = n["strengthened"]
+        d["caught_by"] = caught
+        json.dump(d, open(meta, "w"), indent=1)
     rows.append("| `%s` | %s | %s | %s | %s |" % (cid, (n.get("what") or title).replace("|", "/"), (n.get("needs") or "see README").replace("|", "/"),
                                              ", ".join(caught) if caught else "**not caught**", n.get("strengthened", "")))
 table = ("| change | what it does | needs, to manifest | caught by (quick tier) | strengthened |\n|---|---|---|---|---|\n" + "\n".join(rows) + "\n")
-unconfirmed = sorted(k for k in matrix if not os.path.exists(V + "/seeded/%s/meta.json" % k))
-if unconfirmed:
-    table += "\nDelivered but not kept (patch no longer applies to the repaired tree, or the demonstration / suite comparison could not be confirmed): " + ", ".join("`%s`" % u for u in unconfirmed) + ".\n"
+dropped = notes.get("_not_kept", {})
+if dropped:
+    table += "\nDelivered but not kept:\n\n" + "".join("* `%s` - %s\n" % (k, v) for k, v in sorted(dropped.items()))
 p = V + "/DESIGN.md"
 s = open(p).read()
 begin, end = "<!-- SEEDED TABLE BEGIN -->", "<!-- SEEDED TABLE END -->"
